@@ -285,10 +285,10 @@ func (tx *Tx) rangeScanOnDisk(bucket string, start, end []byte) ([]*Entry, error
 	newStart, newEnd := getNewKey(bucket, start), getNewKey(bucket, end)
 
 	for _, bptSparseIdx := range bptSparseIdxGroup {
-		if compare(newStart, bptSparseIdx.start) <= 0 &&
-			compare(bptSparseIdx.start, newEnd) <= 0 ||
-			compare(newStart, bptSparseIdx.end) <= 0 &&
-				compare(bptSparseIdx.end, newEnd) <= 0 {
+		// the scanned range and the key range of the segment overlap (the segment's range may
+		// also strictly contain the scanned range)
+		if compare(newStart, bptSparseIdx.end) <= 0 &&
+			compare(bptSparseIdx.start, newEnd) <= 0 {
 
 			entries, err := tx.findRangeOnDisk(int64(bptSparseIdx.fID), int64(bptSparseIdx.rootOff), start, end, newStart, newEnd)
 
